@@ -64,6 +64,7 @@ MUTANTS = [
     {"name": "revert-a0fd8f0-lax-fractional-bound-int", "revert": "a0fd8f0", "props": ["C03"]},
     {"name": "revert-26d5b4e-abstract-container-elements", "revert": "26d5b4e", "props": ["C01"]},
     {"name": "revert-a63d0d7-strict-recheck-after-lax", "revert": "a63d0d7", "props": ["C01", "C03"]},
+    {"name": "revert-55b7cc4-shared-typing-forwardref", "revert": "55b7cc4", "props": ["C17", "C19"]},
     # ---- C01 ------------------------------------------------------------------------------
     {"name": "c01-seq-first-element-unconverted", "props": ["C01"], "edits": [{"file": R, "old": """                try:
                     result.append(
